@@ -50,7 +50,7 @@ SELECT_BUILDERS = {
 WRAP_BUILDERS = ["and_", "or_", "not_", "as_", "subquery", "isin", "between", "like", "eq", "neq", "is_", "desc", "asc", "with_", "union", "limit_q"]
 NM_FUNCS = ["sql_all", "sql_all", "update_fn", "insert_fn", "column_fn", "placeholders_expr", "sql", "sql", "sql", "optimize", "qualify_copy", "annotate_copy", "diff", "diff", "lineage", "expand", "replace_tables", "replace_placeholders",
             "maybe_parse_copy", "binop", "dump", "alias_", "subquery_fn", "not_fn", "and_fn", "cast_fn", "find_tables", "to_s", "union_fn", "copy_eq", "plan",
-            "refl", "refl", "refl_fn", "refl_fn"]
+            "refl", "refl", "refl_fn", "refl_fn", "sql_nodes"]
 # arguments for the reflective builder op: every public method of the target's class that has a `copy` parameter is a candidate
 REFL_ARGS = {"select": ["nn"], "where": ["zz > 1"], "having": ["COUNT(*) > 1"], "qualify": ["rn = 1"], "on": ["zz = 1"], "from_": ["ft"], "join": ["jt"],
              "group_by": ["gg"], "order_by": ["oo DESC"], "sort_by": ["sb"], "cluster_by": ["cb"], "limit": [7], "offset": [2], "with_": ["al", "SELECT 1 AS a"],
@@ -282,6 +282,8 @@ def _gen_op(rng, g, cfg, fault_now):
         if k == "eq":
             op["t2"], op["n2"] = rng.randrange(64), rng.randrange(4096)
         return op
+    if g == "set" and rng.random() < 0.12:
+        return {"k": "rewrap", **_tn(rng), "w": rng.choice(["paren", "not", "neg", "alias", "cast", "paren_b", "not_b"]), "mode": rng.choice(["install", "install", "restore"])}
     if g == "set" and rng.random() < 0.2:
         return {"k": "set_case", **_tn(rng), "key": rng.randrange(64), "whole": rng.random() < 0.5}
     if g == "set" and rng.random() < 0.25:
@@ -678,6 +680,40 @@ def _apply(world, op, st):
             n.set(key, cur + 1)
         else:
             res["outcome"] = "skip"
+        return res
+
+    if k == "rewrap":
+        # the in-place wrapping idiom of sqlglot's own rules: holder.set(key, Wrapper(this=child)) - the wrapper adopts the child
+        # first, set() then links the wrapper in ("install"); or the caller changes its mind and puts the very same child back
+        # with holder.set(key, child), which has to re-adopt it ("restore"). Judged after the whole step only.
+        t, n, _ = target(op["t"], op["n"])
+        res["targets"].add(id(t)); res["mut_tree"] = t
+        p_, key, idx = n.parent, n.arg_key, n.index
+        if p_ is None or isinstance(n, (exp.Query, exp.Table, exp.From, exp.Join, exp.Where, exp.Group, exp.Order, exp.Identifier, exp.DataType)) or not isinstance(n, exp.Condition):
+            res["outcome"] = "skip"
+            return res
+        w = op["w"]
+        if w == "paren":
+            wrapped = exp.Paren(this=n)
+        elif w == "not":
+            wrapped = exp.Not(this=n)
+        elif w == "neg":
+            wrapped = exp.Neg(this=n)
+        elif w == "alias":
+            wrapped = exp.Alias(this=n, alias=exp.to_identifier("rw"))
+        elif w == "cast":
+            wrapped = exp.Cast(this=n, to=exp.DataType.build("int"))
+        elif w == "paren_b":
+            wrapped = exp.paren(n, copy=False)
+        else:
+            wrapped = exp.not_(n, copy=False)
+        back = wrapped if op["mode"] == "install" else n
+        if idx is None:
+            p_.set(key, back)
+        else:
+            p_.set(key, back, index=idx)
+        # in "restore" mode the discarded wrapper still points at the child; it is dropped, not pooled
+        res["outcome"] = "ok:" + op["mode"]
         return res
 
     if k == "set_idx":
@@ -1119,6 +1155,20 @@ def _apply_nm(world, op, st, res, target):
                     except Exception as e:  # noqa
                         acc.append(type(e).__name__)
                 res["outcome"] = "ok:" + common.short_hash(acc)
+            elif f == "sql_nodes":
+                # generation started at EVERY node of the tree (a sub-expression printed on its own is ordinary use: logging,
+                # error messages, building new statements from pieces), for the run's hot dialects and a few others
+                acc = []
+                dls = [dd for i_, dd in enumerate(SQL_DIALECTS) if (i_ + op["m"]) % 6 == 0]
+                for x in nodes[:80]:
+                    for dd in dls:
+                        try:
+                            acc.append(common.short_hash(x.sql(dialect=dd), 2))
+                        except RecursionError:
+                            raise
+                        except Exception as e:  # noqa
+                            acc.append(type(e).__name__)
+                res["outcome"] = "ok:" + common.short_hash(acc)
             elif f == "optimize":
                 from sqlglot.optimizer import optimize
 
@@ -1170,7 +1220,14 @@ def _apply_nm(world, op, st, res, target):
                 else:
                     res["outcome"] = "skip"
             elif f == "expand":
-                r = exp.expand(t, {"x": "SELECT 1 AS a, 2 AS b", "t": sqlglot.parse_one("SELECT 3 AS a")})
+                if op.get("col_node") and isinstance(t2, exp.Query) and t2 is not t:
+                    # a source given as a callable "that provides a query on demand" and hands out a tree its owner still holds
+                    # (a memoising loader); the source names are tables the expanded tree really mentions
+                    names = sorted({tb.name for tb in t.find_all(exp.Table) if tb.name}) or ["x"]
+                    res["nm"].append(t2)
+                    r = exp.expand(t, {names[op["n2"] % len(names)]: (lambda: t2), "x": "SELECT 1 AS a, 2 AS b"})
+                else:
+                    r = exp.expand(t, {"x": "SELECT 1 AS a, 2 AS b", "t": sqlglot.parse_one("SELECT 3 AS a")})
             elif f == "replace_tables":
                 r = exp.replace_tables(t, {"x": "xx.yy", "t": "c.d.t2"}, dialect=d)
             elif f == "replace_placeholders":
@@ -1311,7 +1368,7 @@ def execute(record, state=None):
         pre_sql = None
         snap = None
         tgt_tree = None
-        if world.trees and k in ("set", "set_case", "set_leaf", "set_idx", "append", "replace", "pop", "transform", "replace_children", "replace_tree", "builder", "wrap", "set_kwargs", "rule", "meta_put", "meta_mut"):
+        if world.trees and k in ("set", "set_case", "set_leaf", "set_idx", "append", "replace", "pop", "transform", "replace_children", "replace_tree", "builder", "wrap", "set_kwargs", "rule", "meta_put", "meta_mut", "rewrap"):
             tgt_tree = world.tree(op["t"])
             pre_sql = _sql(tgt_tree)
             if pre_sql is not None:
@@ -1537,6 +1594,8 @@ def _opname(op):
         return "transform(copy=%s%s)" % (op["copy"], ",abort" if op["abort"] else "")
     if k == "copy":
         return "copy:" + op["how"]
+    if k == "rewrap":
+        return "rewrap:%s:%s" % (op["mode"], op["w"])
     return k
 
 
